@@ -1,3 +1,24 @@
+mod behave;
+mod c37;
+mod c38;
+mod c39;
+mod c40;
+mod c41;
+mod c42;
+mod c43;
+mod c44;
+mod tablegen;
+mod util;
+
 fn main() {
-    vcore::runner::main(&[])
+    vcore::runner::main(&[
+        ("C37", c37::run),
+        ("C38", c38::run),
+        ("C39", c39::run),
+        ("C40", c40::run),
+        ("C41", c41::run),
+        ("C42", c42::run),
+        ("C43", c43::run),
+        ("C44", c44::run),
+    ])
 }
